@@ -39,15 +39,8 @@ func randomCases(tier string) int {
 	return quickRandom
 }
 
-// Cases: one case per table value, then the random cases; thorough has one
-// more case at the end for the targets that kill the worker on the pinned tree.
-func (check) Cases(tier string) int {
-	n := len(table) + randomCases(tier)
-	if tier == "thorough" {
-		n++
-	}
-	return n
-}
+// Cases: one case per table value, then the random cases.
+func (check) Cases(tier string) int { return len(table) + randomCases(tier) }
 
 func (check) Exhaustive(string) bool { return false }
 
@@ -64,7 +57,7 @@ func (check) Assumptions() []string {
 		"not compared: which error; number<->bool and bool->number/Duration (no mathematical reading); spellings on/off/yes/no for bool; the text a float renders to (it must parse back to the same float64); sign of zero; NaN payload",
 		"an error where a value was possible is reported only for in-range integer->integer, integer->float64 when exactly representable, and float64->float64 (literal numbers, any route)",
 		"not generated: named types over time.Duration (an int64 of nanoseconds to the library); splices that re-parse text (only \"${src}\", which keeps the referenced value's type)",
-		"named string targets as struct field and *named-string targets in every route make the pinned tree allocate until the worker dies (pointerize never terminates); they run only in the last thorough case, where the supervisor attributes the death; named string as map value / slice element (a recoverable panic) runs everywhere",
+		"guard: a library that hands back an unconverted string for a named string type panics (recoverably) as map value and never returns (pointerize allocates until the process dies) as struct field or behind a pointer; so in every case the named string map route runs first, and when it panics - reported as a violation - the never-returning routes of that case are skipped (counted in skipped_after_named_string_panic) instead of killing the worker in every case",
 	}
 }
 
@@ -95,6 +88,8 @@ type target struct {
 	st, mp, sl reflect.Type
 }
 
+var namedString *target   // type myString string
+var stringKind int        // its index in kinds
 var targets []*target     // all generated targets
 var targetsOf [][]*target // by kind index
 var getters = []struct {
@@ -141,7 +136,8 @@ func initTargets() {
 	}
 }
 
-// hazard: this (target, route) never returns on the pinned tree.
+// hazard: this (target, route) never returns when the library hands back an
+// unconverted string for a named string type (see the guard in Assumptions).
 func hazard(t *target, route int) bool {
 	if t.k.class != cString {
 		return false
@@ -233,6 +229,8 @@ type runner struct {
 	vclass  string
 	nontriv bool
 	verbose bool
+	// named string guard, per construction: 0 not run, 1 fine, 2 panicked
+	canary [nCons]int
 }
 
 func newRunner(res *harness.R, s src, verbose bool) *runner {
@@ -297,11 +295,28 @@ func kindIndex(k *tkind) int {
 	return -1
 }
 
-// unpack runs one (construction, target, route) conversion.
-func (ru *runner) unpack(cons int, ki int, t *target, route int) {
+// namedStringOK runs (once per construction) the named string map route and
+// reports whether it returned without a panic.
+func (ru *runner) namedStringOK(cons int) bool {
+	if ru.canary[cons] == 0 {
+		ru.canary[cons] = 1
+		if ru.unpack(cons, stringKind, namedString, rMap) {
+			ru.canary[cons] = 2
+		}
+	}
+	return ru.canary[cons] == 1
+}
+
+// unpack runs one (construction, target, route) conversion; it reports
+// whether the library panicked.
+func (ru *runner) unpack(cons int, ki int, t *target, route int) (didPanic bool) {
 	b := ru.config(cons)
 	if b == nil {
-		return
+		return false
+	}
+	if hazard(t, route) && !ru.namedStringOK(cons) {
+		ru.res.Ev("skipped_after_named_string_panic", 1)
+		return false
 	}
 	var err error
 	var got reflect.Value
@@ -343,7 +358,7 @@ func (ru *runner) unpack(cons int, ki int, t *target, route int) {
 	if panicked {
 		ru.res.Violate(fmt.Sprintf("panic:%s-target@%s", variantKind(t), topFrame(where)), "panic %q at %s: %s", pv, where, call())
 		ru.outcome(t.k, "panic")
-		return
+		return true
 	}
 	if err == nil && present {
 		for got.Kind() == reflect.Ptr {
@@ -355,6 +370,7 @@ func (ru *runner) unpack(cons int, ki int, t *target, route int) {
 		}
 	}
 	ru.judge(ki, t.k, t.k.name, err, got, present, call)
+	return false
 }
 
 func variantKind(t *target) string {
@@ -499,37 +515,24 @@ func (ru *runner) judge(ki int, k *tkind, to string, err error, got reflect.Valu
 	ru.outcome(k, "wrong-value")
 }
 
-// runFull: the whole cross product for one value. The string kind goes last:
-// its named variants panic for every value on the pinned tree and would
-// otherwise use up the per-case violation slots first.
-func runFull(res *harness.R, s src, verbose bool, onlyHazard bool) {
+// runFull: the whole cross product for one value.
+func runFull(res *harness.R, s src, verbose bool) {
 	ru := newRunner(res, s, verbose)
-	kind := func(ki int) {
+	for ki := range kinds {
 		for cons := 0; cons < nCons; cons++ {
 			for _, t := range targetsOf[ki] {
 				for route := 0; route < nRoutes; route++ {
-					if hazard(t, route) == onlyHazard {
-						ru.unpack(cons, ki, t, route)
+					if t == namedString && route == rMap && ru.canary[cons] != 0 {
+						continue // already run as the guard
 					}
+					ru.unpack(cons, ki, t, route)
 				}
 			}
 		}
 	}
-	for ki, k := range kinds {
-		if k.class != cString {
-			kind(ki)
-		}
-	}
-	if !onlyHazard {
-		for gi := range getters {
-			for cons := 0; cons < nCons; cons++ {
-				ru.getter(cons, gi)
-			}
-		}
-	}
-	for ki, k := range kinds {
-		if k.class == cString {
-			kind(ki)
+	for gi := range getters {
+		for cons := 0; cons < nCons; cons++ {
+			ru.getter(cons, gi)
 		}
 	}
 }
@@ -540,14 +543,7 @@ func runSampled(res *harness.R, r *rand.Rand, s src, verbose bool) {
 	ru := newRunner(res, s, verbose)
 	for ki := range kinds {
 		ts := targetsOf[ki]
-		for try := 0; try < 8; try++ {
-			t, route := ts[r.Intn(len(ts))], r.Intn(nRoutes)
-			if hazard(t, route) {
-				continue
-			}
-			ru.unpack(r.Intn(nCons), ki, t, route)
-			break
-		}
+		ru.unpack(r.Intn(nCons), ki, ts[r.Intn(len(ts))], r.Intn(nRoutes))
 	}
 	for gi := range getters {
 		ru.getter(r.Intn(nCons), gi)
@@ -558,19 +554,14 @@ func (check) Run(seed int64, tier string, idx int, verbose bool) harness.Result 
 	res := harness.NewR(idx)
 	switch {
 	case idx < len(table):
-		runFull(res, table[idx], verbose, false)
+		runFull(res, table[idx], verbose)
 		if idx < 2 {
 			res.Sample = map[string]interface{}{"value": table[idx].String(), "targets": len(targets), "constructions": consNames, "routes": routeNames}
 		}
-	case idx < len(table)+randomCases(tier):
+	default:
 		r := rand.New(rand.NewSource(harness.Mix(seed, "C03", idx)))
 		for j := 0; j < valsPerCase; j++ {
 			runSampled(res, r, randomSrc(r), verbose)
-		}
-	default:
-		// named string targets that never return on the pinned tree
-		for _, s := range []src{srcS("abc"), srcS("0x10"), srcS(""), srcI(-5), srcU(1 << 63), srcF(2.5), srcB(true)} {
-			runFull(res, s, verbose, true)
 		}
 	}
 	return res.Done()
